@@ -70,18 +70,31 @@ func hx(b []byte) string {
 
 var errX = map[string]error{}
 
+// tempErr is an error that reports itself as temporary / timeout (like syscall.EAGAIN or a net timeout)
+type tempErr struct{ tag string }
+
+func (e *tempErr) Error() string   { return "scripted temporary failure " + e.tag }
+func (e *tempErr) Temporary() bool { return true }
+func (e *tempErr) Timeout() bool   { return true }
+
 func xerr(tag string) error {
 	if e, ok := errX[tag]; ok {
 		return e
 	}
-	e := errors.New("scripted failure " + tag)
+	var e error
+	if strings.HasPrefix(tag, "t") {
+		e = &tempErr{tag}
+	} else {
+		e = errors.New("scripted failure " + tag)
+	}
 	errX[tag] = e
 	return e
 }
 
 type item struct {
-	d   []byte
-	err error
+	d     []byte
+	err   error
+	delay time.Duration // the source blocks this long before answering
 }
 
 type scriptReader struct {
@@ -96,6 +109,10 @@ func (r *scriptReader) Read(p []byte) (int, error) {
 		return 0, io.EOF
 	}
 	it := &r.items[0]
+	if it.delay > 0 {
+		time.Sleep(it.delay)
+		it.delay = 0
+	}
 	if len(it.d) <= len(p) {
 		n := copy(p, it.d)
 		err := it.err
@@ -117,6 +134,10 @@ func parseScript(s string) *scriptReader {
 	for _, part := range strings.Split(s, ",") {
 		de := strings.SplitN(part, ":", 2)
 		it := item{d: append([]byte{}, unhex(de[0])...)}
+		if k := strings.Index(de[1], "@"); k >= 0 { // <err>@<milliseconds>
+			it.delay = time.Duration(atoi(de[1][k+1:])) * time.Millisecond
+			de[1] = de[1][:k]
+		}
 		switch de[1] {
 		case "-":
 		case "eof":
